@@ -98,7 +98,9 @@ func (m heapManager) run() {
 			close(data.iterPop)
 		case h_fix:
 			data := req.data.(fixData)
-			if data.bar.index < 0 {
+			if data.bar.index < 0 || data.bar.popped {
+				// a popped bar stays on top until its rows are left on screen:
+				// flush counts them as the top-most rows of the frame
 				break
 			}
 			data.bar.priority = data.priority
